@@ -263,8 +263,8 @@ def history(case, r):
             if tdt.startswith("int"):
                 if oper == "/" or not all(c[2].startswith("int") for c in ycomps):
                     continue
-                if oper in "+-" and any(abs(c[1][0] / m.unit[0] - 1) > 0 for c, m in zip(ycomps, e.comps)):
-                    continue
+                if any(um.same_dims(c[1], m.unit) and abs(c[1][0] / m.unit[0] - 1) > 0 for c, m in zip(ycomps, e.comps)):
+                    continue      # a compatible operand in another unit is converted (to float) first
             compatible = all(um.same_dims(c[1], m.unit) for c, m in zip(ycomps, e.comps))
             where += f" x{oper}=y ({ykind})"
             r.label("iop_" + oper, "y_" + ykind, "target_" + e.kind)
@@ -482,11 +482,18 @@ def history(case, r):
                         r.bad(["deepcopy-shares-group"], f"{where}: deepcopy of a Dataset shares its Datagroup")
                         break
                     newdm = {}
+                    copied = {}      # deepcopy preserves aliasing inside the copied graph (memo): one object stored
+                    #                  under two keys is one object in the copy as well
                     for k, e in dm.items():
                         if gcp[k] is gsrc[k] or any(np.shares_memory(a._array, b._array) for a, b in
                                                     zip(_arrays_of(gsrc[k]), _arrays_of(gcp[k]))):
                             r.bad(["deepcopy-shares-member", type(src).__name__], f"{where}: member {k!r} is shared")
                             break
+                        if id(e) in copied:
+                            prev = copied[id(e)]
+                            if gcp[k] is prev.objs[0]:
+                                newdm[k] = prev
+                                continue
                         comps = []
                         for m in e.comps:
                             w.bufs.append(np.array(w.raw(m), dtype=np.float64, copy=True))
@@ -497,6 +504,7 @@ def history(case, r):
                         e.shared = True
                         w.pool.append(ne)
                         newdm[k] = ne
+                        copied[id(e)] = ne
                     w.extra.append((gcp, newdm))
                 else:
                     if ci == 2:
